@@ -394,6 +394,24 @@ func Scalars(quick bool) []*big.Int {
 		add(big.NewInt(i))
 		add(new(big.Int).Sub(l, big.NewInt(i+1)))
 	}
+	// the same boundaries in the Montgomery domain: the scalar whose internal
+	// form is m is m*R^-1. The gap [2^252, l) between the top power of two and
+	// the modulus is where "is it reduced" is decided limb-wise.
+	mont := func(m *big.Int) {
+		if m.Sign() >= 0 && m.Cmp(l) < 0 {
+			add(ref.SMul(m, montRInv))
+		}
+	}
+	for i := int64(0); i <= 4; i++ {
+		mont(big.NewInt(i))
+		mont(new(big.Int).Sub(l, big.NewInt(i+1)))
+		mont(new(big.Int).Add(pow2(252), big.NewInt(i)))
+		mont(new(big.Int).Sub(pow2(252), big.NewInt(i+1)))
+	}
+	for k := uint(8); k < 125; k += 29 {
+		mont(new(big.Int).Add(pow2(252), pow2(k)))
+		mont(new(big.Int).Sub(l, pow2(k)))
+	}
 	half := new(big.Int).Rsh(new(big.Int).Sub(l, big.NewInt(1)), 1)
 	add(half)
 	add(new(big.Int).Add(half, big.NewInt(1)))
@@ -635,4 +653,103 @@ func SortedKeys[M ~map[string]V, V any](m M) []string {
 	}
 	sort.Strings(ks)
 	return ks
+}
+
+// ---------- targeted representations ----------
+
+// SparseZ returns Z values whose limbs are sparse: every non-zero pattern of
+// limbs in {0,1} and in {0,2^51-1}. A shortcut that recognises "Z is one" (or
+// any other special Z) by looking at some limbs only is confused by exactly
+// these.
+func SparseZ() []Limbs {
+	var out []Limbs
+	for _, hi := range []uint64{1, 1<<51 - 1} {
+		for m := 1; m < 32; m++ {
+			var l Limbs
+			for i := 0; i < 5; i++ {
+				if m>>uint(i)&1 == 1 {
+					l[i] = hi
+				}
+			}
+			if new(big.Int).Mod(LimbValue(l), ref.P).Sign() != 0 {
+				out = append(out, l)
+			}
+		}
+	}
+	return out
+}
+
+// MakePointZ builds model point p with Z stored as exactly the limbs z (the
+// other coordinates in canonical limbs).
+func MakePointZ(p ref.Pt, z Limbs) *edwards25519.Point {
+	c := PointCoords(p, new(big.Int).Mod(LimbValue(z), ref.P))
+	X, Y, T := ElemCanon(c[0]), ElemCanon(c[1]), ElemCanon(c[3])
+	Z := ElemFromLimbs(z)
+	return MakePointFromElems(&X, &Y, &Z, &T)
+}
+
+// ConfusableRep builds model point q in the representation whose stored
+// coordinate i (0 X, 1 Y, 2 Z, 3 T) has exactly the canonical limbs of c. It
+// returns nil when q's affine coordinate i is zero (no such representation) or
+// c is zero.
+func ConfusableRep(q ref.Pt, i int, c *big.Int) *edwards25519.Point {
+	aff := PointCoords(q, big.NewInt(1))
+	if aff[i].Sign() == 0 || new(big.Int).Mod(c, ref.P).Sign() == 0 {
+		return nil
+	}
+	lam := ref.FMul(c, ref.FInv(aff[i]))
+	return MakePoint2(q, lam)
+}
+
+// MakePoint2 builds q with scaling lambda, canonical limbs.
+func MakePoint2(q ref.Pt, lam *big.Int) *edwards25519.Point {
+	c := PointCoords(q, lam)
+	var e [4]field.Element
+	for i := range e {
+		e[i] = ElemCanon(c[i])
+	}
+	return MakePointFromElems(&e[0], &e[1], &e[2], &e[3])
+}
+
+// Related lists representations of points OTHER than p that share stored
+// coordinates with the representation (X:Y:Z:T) of p given by lam: for each
+// coordinate and each point of `others` the representation that shares exactly
+// that coordinate, and the three sign-pattern partners that share two
+// coordinates ((-X:Y:Z:-T) = -p, (X:-Y:Z:-T), (-X:-Y:Z:T)). Anything a tree
+// memoises under an incomplete key (one or two stored coordinates) is confused
+// by one of them.
+type RelatedRep struct {
+	Name string
+	Pt   ref.Pt
+	P    *edwards25519.Point
+}
+
+func Related(p ref.Pt, lam *big.Int, others []ref.Pt) []RelatedRep {
+	co := PointCoords(p, lam)
+	var out []RelatedRep
+	names := []string{"X", "Y", "Z", "T"}
+	for qi, q := range others {
+		if q.Equal(p) {
+			continue
+		}
+		for i := 0; i < 4; i++ {
+			if r := ConfusableRep(q, i, co[i]); r != nil {
+				out = append(out, RelatedRep{fmt.Sprintf("other%d sharing stored %s", qi, names[i]), q, r})
+			}
+		}
+	}
+	signs := [][4]int{{-1, 1, 1, -1}, {1, -1, 1, -1}, {-1, -1, 1, 1}}
+	for _, sg := range signs {
+		var e [4]field.Element
+		var v [4]*big.Int
+		for i := range e {
+			v[i] = co[i]
+			if sg[i] < 0 {
+				v[i] = ref.FNeg(co[i])
+			}
+			e[i] = ElemCanon(v[i])
+		}
+		out = append(out, RelatedRep{fmt.Sprintf("sign partner %v", sg), ref.Affine(v[0], v[1], v[2]), MakePointFromElems(&e[0], &e[1], &e[2], &e[3])})
+	}
+	return out
 }
